@@ -476,6 +476,14 @@ def make_driver_class(P, decl, cls_attrs, vectorized, seen):
     return base
 
 
+def effective_decl(decl, vectorized):
+    """Job.vectorize copies prep/post/return_files/executable/nprocs/envars/name into the vectorised job but not
+    `memory`: the settings DECLARED by a vectorised job are the declared ones minus memory (the driver's memory is then
+    what is bound).  The property names executable, processor count and environment, not memory, so this is modelled
+    as the code has it (side observation in DESIGN.md), not judged."""
+    return {k: v for k, v in decl.items() if not (vectorized and k == "mem")}
+
+
 def run_binding_case(P, decl, events, vectorized):
     """events: list of ("C", i, cls_attrs, settings) | ("S", i, settings) | ("U", i) | ("K", i).
     -> (observations per event, violations)"""
@@ -520,6 +528,7 @@ def run_binding_case(P, decl, events, vectorized):
             # oracle, from the property text: the JobInput reflects THIS driver's settings (declared job settings and
             # class attributes take precedence as documented by the `or` chains), whatever happened before
             ca, s = cur[i] if ev[0] == "U" else (cur[i][0], dict(exe=None, nprocs=None, mem=None, env=None))
+            decl = effective_decl(decl, vectorized)
             want_exe = decl.get("exe") or ca.get("exe") or s["exe"]
             want_np = decl.get("nprocs") or ca.get("nprocs") or s["nprocs"] or 1
             want_mem = decl.get("mem") or s["mem"] or 1000
@@ -554,7 +563,7 @@ def binding_cases(rng, thorough):
     for nd in (2, 3):
         for order in binding_orders(nd):
             for variant in range(4 if thorough else (2 if nd == 3 else 4)):
-                decl = DECLS[(k + variant) % len(DECLS)] if variant else {}
+                decl = DECLS[1 + (k // 2 + variant) % (len(DECLS) - 1)] if variant else {}   # every declared-settings kind recurs
                 sets = rng.sample(SETTINGS_POOL, nd) if variant else SETTINGS_POOL[:nd]
                 evs = []
                 for kind, i in order:
@@ -568,6 +577,17 @@ def binding_cases(rng, thorough):
                     evs += [("U", 0), ("U", nd - 1), ("U", 0)]
                 out.append((decl, evs, (k + variant) % 5 == 4))
                 k += 1
+    # directed: a job that DECLARES settings of its own (the dict/object held by the shared descriptor) used through
+    # drivers whose own settings differ, in both orders and repeatedly -- state that sticks to the descriptor shows
+    # up as another driver's setting in a later binding
+    for decl in DECLS[1:] + [dict(env={"LC": "C"}), dict(env={"LC": "C"}, nprocs=3)]:
+        for ca in CLS_ATTRS:
+            for a, b in itertools.permutations(range(len(SETTINGS_POOL)), 2):
+                if (a + 2 * b + len(out)) % (1 if thorough else 3):
+                    continue
+                evs = [("C", 0, ca, SETTINGS_POOL[a]), ("C", 1, {}, SETTINGS_POOL[b]),
+                       ("U", 0), ("U", 1), ("U", 0), ("K", 1), ("U", 1), ("U", 0)]
+                out.append((decl, evs, len(out) % 4 == 3))
     return out
 
 
@@ -640,11 +660,13 @@ def run(ctx, rep):
     bterms, bmeta = [], []
     for decl, evs, vec in binding_cases(rng, ctx.thorough):
         o, viol = run_binding_case(P, decl, evs, vec)
-        t = cq_bcase(decl, evs, o)
+        t = cq_bcase(effective_decl(decl, vec), evs, o)
         bterms.append(t); bmeta.append((decl, evs, vec))
         rep.case(key=t, sample={"decl": decl, "events": [e[:2] for e in evs], "obs": o} if len(bterms) % 61 == 7 else None)
         rep.count("bind:vectorized" if vec else "bind:single")
         rep.count(f"bind:ndrivers:{len({e[1] for e in evs})}")
+        rep.count("bind:declared:" + ("+".join(sorted(decl)) or "nothing"))
+        rep.count("bind:class-attrs:" + ("+".join(sorted({k_ for e in evs if e[0] == "C" for k_ in e[2]})) or "none"))
         for sig, text in viol:
             rep.violate(sig, text, {"kind": "bind", "decl": decl, "events": evs, "vec": vec})
     nx, xviol = xtb_oracle(rng)
